@@ -207,6 +207,23 @@ def session_history(rnd, first_id, nev, focus=False):
             except Exception as e:  # noqa: BLE001
                 st = {"status": "error", "exc": f"{type(e).__name__}: {e}"[:150]}
             emit({"cs": c2 + 1, "type": t2, "mode": modes[c2], "consts": consts, "ev": "SetField", "iid": iid, "path": path, "value": v, "obs": st})
+        elif r_ < 0.66 and any(f["type"]["k"] == "arr" and f["type"]["len"]["k"] != "fixed" and f["type"]["elem"]["k"] not in ("char", "wchar")
+                               and not f["bits"] for (_, _, tt) in live.values() for f in tt["fields"]):
+            # an array without a fixed number of entries grows in place (its default is an EMPTY list - an object all the same)
+            cands = [(iid, j) for iid, (_, _, tt) in live.items() for j, f in enumerate(tt["fields"])
+                     if f["type"]["k"] == "arr" and f["type"]["len"]["k"] != "fixed" and f["type"]["elem"]["k"] not in ("char", "wchar") and not f["bits"]]
+            iid, j = rnd.choice(cands)
+            o, c2, t2 = live[iid]
+            f = t2["fields"][j]
+            try:
+                v = A.gen_value(rnd, f["type"]["elem"], modes[c2], g.consts, nonzero=f["type"]["len"]["k"] == "null")
+            except Exception:  # noqa: BLE001
+                continue
+            if A.has_nan(v):
+                continue
+            rf = getattr(css[c2], t2["name"]).__fields__[j]
+            getattr(o, rf._name).append(A.unproject(v, f["type"]["elem"], rf.type.type))
+            emit({"cs": c2 + 1, "type": t2, "mode": modes[c2], "consts": consts, "ev": "Append", "iid": iid, "j": j + 1, "value": v, "obs": {}})
         elif r_ < 0.74:
             iid = rnd.choice(list(live))
             o, c2, t2 = live[iid]
